@@ -44,7 +44,74 @@ def analyse_fresh(code):
     return tifa_analysis(), MAIN_REPORT
 
 
+# programs whose analysis depends on what TIFA believes about a builtin constructor / module / class, and programs that
+# could change that belief if type objects were shared between analyses
+PAIR_POOL = [
+    "items = list()\nitems.append('x')\nprint(items)\n",
+    "items = list()\nitems.append(1)\nfor i in items:\n    print(i + 1)\n",
+    "d = dict()\nd['k'] = 1.5\nprint(d['k'] + 1)\n",
+    "s = set()\ns.add('a')\nprint(s)\n",
+    "t = tuple()\nprint(t)\nw = str()\nprint(w + 'a')\n",
+    "def f(a: list[int]) -> list[str]:\n    return [str(x) for x in a]\nprint(f([1]))\n",
+    "x: dict[str, int] = {}\nx['a'] = 1\nprint(x)\n",
+    "v: set[str] = set()\nv.add('q')\nprint(v)\n",
+    "def g(p: tuple[int, str]):\n    return p\nprint(g((1, 'a')))\n",
+    "names: list[str] = list()\nnames.append('n')\nprint(names)\n",
+    "import math\nmath.pi = 'three'\nprint(math.pi)\n",
+    "import math\nprint(math.pi + 1, math.floor(2.5))\n",
+    "import random\nprint(random.randint(1, 2) + 1)\n",
+    "import random\nrandom.randint = 5\nprint(random.randint)\n",
+    "text = 'abc'\nprint(text.upper().split())\n",
+    "numbers = [1, 2]\nnumbers.append('three')\nprint(numbers)\n",
+    "numbers = []\nnumbers.append(3)\nprint(sum(numbers))\n",
+    "class Dog:\n    def __init__(self, name: str):\n        self.name = name\nd = Dog('x')\nprint(d.name + '!')\n",
+    "class Dog:\n    def __init__(self, age: int):\n        self.age = age\nd = Dog(3)\nprint(d.age + 1)\n",
+    "def add(a: int, b: int) -> int:\n    return a + b\nprint(add(1, 2))\n",
+    "def add(a: str, b: str) -> str:\n    return a + b\nprint(add('1', '2'))\n",
+    "print(int('5') + 1, float('2') + 1.0, str(5) + 'a', bool(0))\n",
+    "int = 5\nprint(int + 1)\n",
+    "len = 3\nprint(len)\n",
+    "print(len('abc') + 1)\n",
+    "values = sorted([3, 1])\nprint(values[0] + 1)\nfor v in range(3):\n    print(v)\n",
+    "from dataclasses import dataclass\n@dataclass\nclass P:\n    x: int\n    y: list[str]\np = P(1, ['a'])\nprint(p.x + 1, p.y)\n",
+    "data = {'a': [1, 2]}\nfor key, value in data.items():\n    print(key + '!', value[0] + 1)\n",
+    "open = 1\nprint(open)\n",
+    "f = open('data.txt')\nprint(f.read())\n",
+]
+
+
+def judge_pair(case):
+    """Runs in a forked child: the first analysis of P is the process's first TIFA run."""
+    p, q = PAIR_POOL[case['p']], PAIR_POOL[case['q']]
+    classes = ['cross-history-pair']
+    try:
+        r1, _ = analyse_fresh(p)
+        i1, s1 = issues_of(r1), r1.success
+        for _ in range(case.get('repeat', 1)):
+            analyse_fresh(q)
+        r3, _ = analyse_fresh(p)
+    except BaseException as e:
+        import traceback
+        tb = traceback.extract_tb(e.__traceback__)[-1]
+        return Result([V('C18|raises:%s@%s' % (type(e).__name__, tb.name), 'tifa_analysis raised %r (%s:%s) for the pair %r / %r' % (e, tb.filename, tb.lineno, p, q))], True, classes)
+    viol = []
+    if issues_of(r3) != i1 or r3.success != s1:
+        viol.append(V('C18|non-deterministic|after-analysing-another-program',
+                      'first analysis in the process gives %r (success %r); after analysing\n%s\nthe same code in a fresh report gives %r (success %r); code:\n%s'
+                      % (i1, s1, q, issues_of(r3), r3.success, p)))
+    return Result(viol, p != q, classes)
+
+
+def pairs(tier):
+    n = len(PAIR_POOL)
+    for i in range(n):
+        for j in range(n):
+            yield {'pair': True, 'p': i, 'q': j}
+
+
 def judge(case):
+    if case.get('pair'):
+        return judge_pair(case)
     code = case['code']
     must_complete = case.get('must_complete', False)
     tag = case.get('tag', 'program')
@@ -185,7 +252,7 @@ def corpus_cases(tier):
         yield {'code': code}
 
 
-ENUMS = {'sweep': sweep, 'corpus': corpus_cases}
+ENUMS = {'sweep': sweep, 'corpus': corpus_cases, 'pairs': pairs}
 
 
 def programs(tier):
@@ -202,4 +269,4 @@ STRATEGIES = {'programs': programs, 'cs1': cs1}
 def plan(tier):
     k = 1 if tier == 'quick' else 40
     return [Task('hyp', 'programs', shards=6, examples=scale(300 * k)), Task('hyp', 'cs1', shards=6, examples=scale(250 * k)),
-            Task('enum', 'sweep', shards=2), Task('enum', 'corpus', shards=2)]
+            Task('enum', 'sweep', shards=2), Task('enum', 'corpus', shards=2), Task('enum', 'pairs', shards=8, isolate=True, timeout=60)]
